@@ -80,11 +80,29 @@ func (x *Ctx) Engine() *scan.Engine {
 			}
 			res := fn.Signature.Results()
 			scalar := res.Len() > 0
+			hasErr := false
 			for i := 0; i < res.Len(); i++ {
-				b, ok := res.At(i).Type().Underlying().(*types.Basic)
-				if !ok || b.Info()&(types.IsInteger|types.IsBoolean) == 0 {
-					scalar = false
+				if isErrT(res.At(i).Type()) {
+					hasErr = true
+					continue
 				}
+				b, ok := res.At(i).Type().Underlying().(*types.Basic)
+				if !ok || b.Info()&(types.IsInteger|types.IsBoolean|types.IsFloat) == 0 {
+					scalar = false
+				} else if b.Info()&types.IsFloat != 0 {
+					hasErr = true // numeric kernels (eiselLemire64, atof64exact) stay opaque; see below
+				}
+			}
+			if hasErr {
+				// helpers with error or float results only when they look at the input (slowParse(data) (float64,
+				// error)) — not error constructors, not the arithmetic kernels
+				takesData := false
+				for _, p := range fn.Params {
+					if isByteSliceT(p.Type()) {
+						takesData = true
+					}
+				}
+				scalar = scalar && takesData
 			}
 			if scalar {
 				e.Inline[fn] = true
